@@ -8,6 +8,8 @@ type ByteBlock = [u8; BLOCK_SIZE];
 
 #[inline]
 pub fn match_uri_vectored(bytes: &mut Bytes) {
+    #[cfg(httparse_verif)]
+    crate::_verif::mark(crate::_verif::B_SWAR_URI);
     loop {
         if let Some(bytes8) = bytes.peek_n::<ByteBlock>(BLOCK_SIZE) {
             let n = match_uri_char_8_swar(bytes8);
@@ -36,6 +38,8 @@ pub fn match_uri_vectored(bytes: &mut Bytes) {
 
 #[inline]
 pub fn match_header_value_vectored(bytes: &mut Bytes) {
+    #[cfg(httparse_verif)]
+    crate::_verif::mark(crate::_verif::B_SWAR_VALUE);
     loop {
         if let Some(bytes8) = bytes.peek_n::<ByteBlock>(BLOCK_SIZE) {
             let n = match_header_value_char_8_swar(bytes8);
@@ -64,6 +68,8 @@ pub fn match_header_value_vectored(bytes: &mut Bytes) {
 
 #[inline]
 pub fn match_header_name_vectored(bytes: &mut Bytes) {
+    #[cfg(httparse_verif)]
+    crate::_verif::mark(crate::_verif::B_SWAR_NAME);
     while let Some(block) = bytes.peek_n::<ByteBlock>(BLOCK_SIZE) {
         let n = match_block(is_header_name_token, block);
         // SAFETY: using peek_n to retrieve the bytes ensures that there are at least n more bytes
